@@ -480,6 +480,13 @@ func cmdCheck(args []string) int {
 		case c.v.Kind == "panic":
 			confirmed = rr.Panic != ""
 			why = "native run did not panic"
+		case c.v.Kind == "race":
+			for _, f := range rr.Failures {
+				if f == "DATA RACE" {
+					confirmed = true
+				}
+			}
+			why = "the race detector did not report a race in the native run"
 		default:
 			for _, f := range rr.Failures {
 				if f == c.v.Msg {
